@@ -222,6 +222,8 @@ structure LoopSt (α : Type) where
   mach : α
   density : α
   speed : α
+  /-- down-range position of the last state handed to the data filter (`last_x`) -/
+  lastX : α
 
 def initialState (r : Run α) (barrelElevation : α) : St α :=
   let pos : Vec α := ⟨0.0, -r.cantCos * r.sightHeight, -r.cantSin * r.sightHeight⟩
@@ -290,15 +292,17 @@ def iterate (r : Run α) (filterFlags : Flags) (skipFuel : Nat) (l : LoopSt α) 
         match mkRow r o.st.time o.st.pos o.st.vel o.speed p.mach p.density o.drag flt'.currentFlag with
         | some row => .error (.range reason (row :: rows).reverse)
         | none => .error .zeroDiv
-      | none => .ok ⟨o.st, p.ws, flt', rows, o.drag, p.mach, p.density, o.speed⟩
+      | none => .ok ⟨o.st, p.ws, flt', rows, o.drag, p.mach, p.density, o.speed, l.s.pos.x⟩
 
-def loop (r : Run α) (filterFlags : Flags) (skipFuel : Nat) (bound : α) : Nat → LoopSt α → Except (Err α) (LoopSt α)
+/-- `while x <= maximum_range + min_step or last_x < maximum_range` (`bound` = `maximum_range + min_step`) -/
+def loop (r : Run α) (filterFlags : Flags) (skipFuel : Nat) (bound maxRange : α) :
+    Nat → LoopSt α → Except (Err α) (LoopSt α)
   | 0, _ => .error .outOfFuel
   | fuel + 1, l =>
-    if l.s.pos.x ≤ bound then
+    if l.s.pos.x ≤ bound ∨ l.lastX < maxRange then
       match iterate r filterFlags skipFuel l with
       | .error e => .error e
-      | .ok l' => loop r filterFlags skipFuel bound fuel l'
+      | .ok l' => loop r filterFlags skipFuel bound maxRange fuel l'
     else .ok l
 
 def minOf (a b : α) : α := if b < a then b else a
@@ -310,8 +314,8 @@ def integrate (r : Run α) (barrelElevation maxRange recordStep : α) (filterFla
   let minStep := minOf r.cfg.calcStep recordStep
   let flt := (TFilter.init filterFlags recordStep s0.pos s0.vel timeStep).setupSeenZero s0.pos.y barrelElevation
               r.proj.lookAngle
-  let l0 : LoopSt α := ⟨s0, WindSock.init r.winds r.maxWindDist, flt, [], 0.0, 0.0, 0.0, r.muzzleVelocity⟩
-  match loop r filterFlags skipFuel (maxRange + minStep) fuel l0 with
+  let l0 : LoopSt α := ⟨s0, WindSock.init r.winds r.maxWindDist, flt, [], 0.0, 0.0, 0.0, r.muzzleVelocity, s0.pos.x⟩
+  match loop r filterFlags skipFuel (maxRange + minStep) maxRange fuel l0 with
   | .error e => .error e
   | .ok l =>
     match l.rows with
